@@ -47,6 +47,13 @@
 (* prefix, ':' and '=' inside section headers) and an instance with 11     *)
 (* stages (indices >= 10).                                                 *)
 (*                                                                         *)
+(* Histories.  Family "history": a description is written into a          *)
+(* directory that already holds the files of an OLDER description (action  *)
+(* DumpPrevious, then Dump = DumpOver with update_existing) with fewer /    *)
+(* the same / more stages, other components, with or without environments, *)
+(* variables, status, output.  RoundTrip speaks about the LAST description *)
+(* written: nothing of the older one may be read back.                     *)
+(*                                                                         *)
 (* Options without a legacy keyword (UnsupportedPaths) and values without  *)
 (* a legacy text (atoms with expr = FALSE) are outside the quantifier of   *)
 (* the property ("every workflow expressible in the legacy format").       *)
